@@ -19,7 +19,13 @@ type propRule struct {
 
 var registry = map[string]func(c *Ctx){}
 
-func register(id string, f func(c *Ctx)) { registry[id] = f }
+// every property also gets the shared rules on package-level state (state.go)
+func register(id string, f func(c *Ctx)) {
+	registry[id] = func(c *Ctx) {
+		f(c)
+		stateRules(c)
+	}
+}
 
 func main() {
 	prop := flag.String("p", "", "property id (C01..C20) or 'all'")
